@@ -1196,14 +1196,75 @@ func cffCharStrings(b []byte, o int) [][2]int {
 	return nil
 }
 
-// GenCase dispatches case idx to one of the three streams.
+// bitmapIndexCase is a two-field structural mutant of an embedded-bitmap location
+// table (CBLC/EBLC/bloc): the index format of one index subtable is switched to each
+// of the five formats (the corpus only has some of them) and one 32-bit word of the
+// subtable body - a count, an image size or an offset, depending on the format - is
+// set to a boundary value.
+func bitmapIndexCase(site tagSite, k int) *Case {
+	b := site.file.Bytes()
+	t := site.t
+	if t.length < 8+48 {
+		return nil
+	}
+	numSizes := u32(b, t.off+4)
+	if numSizes <= 0 || numSizes > 64 || 8+48*numSizes > t.length {
+		return nil
+	}
+	size := k % numSizes
+	k /= numSizes
+	rec := t.off + 8 + 48*size
+	arrOff, nSub := u32(b, rec), u32(b, rec+8)
+	if nSub <= 0 || arrOff < 0 || arrOff+8*nSub > t.length {
+		return nil
+	}
+	if nSub > 4 {
+		nSub = 4
+	}
+	sub := k % nSub
+	k /= nSub
+	add := u32(b, t.off+arrOff+8*sub+4)
+	hdr := arrOff + add
+	if add < 0 || hdr+8+20 > t.length {
+		return nil
+	}
+	format := 1 + k%5
+	k /= 5
+	word := 4 * (k % 5)
+	k /= 5
+	val := sysValues32[k%len(sysValues32)]
+	c := &Case{File: site.file.ID, Kind: "bitmap-index-format",
+		Note: fmt.Sprintf("%s size %d subtable %d format %d body+%d=%#x", tagStr(t.tag), size, sub, format, word, val)}
+	c.Edits = []Edit{{Off: t.off + hdr, Data: put16(uint16(format))}, {Off: t.off + hdr + 8 + word, Data: put32(val)}}
+	return c
+}
+
+func genBitmapIndexCase(seed int64, k int, files []*corpus.File) *Case {
+	buildTagIndex(files)
+	var sites []tagSite
+	for _, tg := range []uint32{0x43424c43, 0x45424c43, 0x626c6f63} { // CBLC, EBLC, bloc
+		sites = append(sites, tagIndex[tg]...)
+	}
+	if len(sites) == 0 {
+		return genFileCase(seed, k, files)
+	}
+	if c := bitmapIndexCase(sites[k%len(sites)], k/len(sites)); c != nil {
+		return c
+	}
+	return genFileCase(seed, k, files)
+}
+
+// GenCase dispatches case idx to one of the streams.
 func GenCase(seed int64, idx int, files []*corpus.File) *Case {
 	switch idx % 8 {
 	case 0, 1, 2:
 		return genTagCase(seed, idx/8*3+idx%8, files)
 	case 3:
-		if (idx/8)%4 == 0 {
+		switch (idx / 8) % 4 {
+		case 0:
 			return genRecursionCase(seed, idx/32, files)
+		case 1:
+			return genBitmapIndexCase(seed, idx/32, files)
 		}
 	}
 	return genFileCase(seed, idx, files)
